@@ -562,14 +562,18 @@ class PlanJoinTablesQuery:
         if item.conditions:
             row_dict = {}
             for i, el in enumerate(item.conditions):
-                if isinstance(el.args[0], Identifier) and el.op == '=':
-                    col_name = el.args[0].parts[-1]
+                arg0, arg1 = el.args[0], el.args[1]
+                if el.op == '=' and isinstance(arg0, (Constant, Parameter)) and isinstance(arg1, Identifier):
+                    # constant = column
+                    arg0, arg1 = arg1, arg0
+                if isinstance(arg0, Identifier) and el.op == '=':
+                    col_name = arg0.parts[-1]
                     if col_name.lower() == predict_target:
                         # don't add predict target to parameters
                         continue
 
-                    if isinstance(el.args[1], (Constant, Parameter)):
-                        row_dict[el.args[0].parts[-1]] = el.args[1].value
+                    if isinstance(arg1, (Constant, Parameter)):
+                        row_dict[arg0.parts[-1]] = arg1.value
 
                     # exclude condition
                     el._orig_node.args = [Constant(0), Constant(0)]
